@@ -188,13 +188,19 @@ def record_cli_case(cid, seed, origin='random'):
             return [tree_of(k0 + i) for i in range(n)]
         A, B = corpus(rnd.randint(1, 40), rnd.randint(1, 3)), corpus(rnd.randint(41, 80), rnd.randint(1, 3))
 
-        def write(name, Ts, s0):
+        # A may be an export 4 treebank with its header, B a headerless export 3 one; AB is `cat A B`
+        a_four = rnd.random() < 0.4
+
+        def text(Ts, s0, four):
+            return ('%% treebank A\n#FORMAT 4\n#BOT ORIGIN\n#EOT ORIGIN\n' if four else '') + \
+                ''.join(fam_io.render_export(T, s0 + i, four, random.Random(i)) for i, T in enumerate(Ts))
+
+        def write(name, txt):
             with open(os.path.join(tmp, name), 'w', encoding='utf-8') as f:
-                for i, T in enumerate(Ts):
-                    f.write(fam_io.render_export(T, s0 + i, False, random.Random(i)))
-        write('A.export', A, 1)
-        write('B.export', B, 1 + len(A))
-        write('AB.export', A + B, 1)
+                f.write(txt)
+        write('A.export', text(A, 1, a_four))
+        write('B.export', text(B, 1 + len(A), False))
+        write('AB.export', text(A, 1, a_four) + text(B, 1 + len(A), False))
         trans = rnd.choice([[], ['root_attach', 'negra_mark_heads', 'boyd_split', 'raising'], ['punctuation_root'],
                             ['negra_mark_heads', 'binarize', 'collapse_unary_chains']])
         destfmt = rnd.choice(['export', 'discobrackets', 'tigerxml', 'terminals'])
